@@ -371,6 +371,8 @@ def cmd_check(argv):
     wall = time.time() - t0
     if not os.environ.get("VERIF_NO_EVIDENCE"):      # sensitivity runs aim at a scratch copy: never evidence
         write_evidence(prop, tier, vseed, agg, aggB, pair_checked, len(new), known_hits, wall, n, harness)
+    viol_runs = sum(1 for r in runsA.values() if r.get("nviol"))
+    log(f"violating_runs={viol_runs} of {len(runsA)}")
     log(f"done: runs={agg['runs']}/{n} steps={agg['steps']} nontrivial={len(agg['share_sigs'])} faults={agg['faults_fired']} "
         f"pairs={pair_checked} new_violations={len(new)} known={len(known_hits)} wall={wall:.1f}s exit={exit_code}")
     if exit_code == 0:
